@@ -159,9 +159,6 @@ Proof. exists underest_cfg, underest_path. vm_compute. reflexivity. Qed.
 
 (* ------------------------------------------------------------------ what goes on the wire *)
 
-Definition ann_of (c : cfg) (p : path) (l : list pfx) : msg :=
-  MAnn (p_tag p) (wpid c p) (msg_total c p l) (wire_order c l).
-
 Lemma emit_all_ok : forall c p ms w,
   (forall l, In l ms -> msg_ok c p l = true) ->
   emit_all c p ms w = rev (map (ann_of c p) ms) ++ w.
